@@ -292,7 +292,7 @@ struct simcfg {
 	/* outage window (virtual seconds relative to scenario start) for the expiry scenarios */
 	time_t outage_from, outage_until;
 	int outage_dur_class; /* evidence only */
-	int outage_mode; /* 0 open fails, 1 send fails, 2 silence, 3 fatal error report, 4 no-data report, 5 cache reset + truncated reload, 6 cache reset + reload with duplicate, 7 takes the query and closes without a byte */
+	int outage_mode; /* 0 open fails, 1 send fails, 2 silence, 3 fatal error report, 4 no-data report, 5 cache reset + truncated reload, 6 cache reset + reload with duplicate, 7 takes the query and closes without a byte, 8 Cache Response then an Error Report */
 };
 
 struct wire {
@@ -364,6 +364,7 @@ struct sim {
 	bool ever_synced;
 	/* C07 monitor */
 	time_t t_ok; /* virtual time of the last successful synchronisation, 0 = never */
+	time_t t_valid; /* ... of the last synchronisation the reference validator accepts too (the truth C07 measures from) */
 	bool holds_data;
 	bool expect_reset_after_expiry;
 	/* C13 monitor */
